@@ -74,6 +74,9 @@ func ToObjectChan(slice interface{}) (objs chan Object) {
 	v := reflect.ValueOf(slice)
 	objs = make(chan Object)
 	if v.Kind() == reflect.Slice {
+		// channel can hold the whole slice, so that the routine feeding it
+		// terminates even though the consumer stops reading (insertion error)
+		objs = make(chan Object, v.Len())
 		go func() {
 			defer close(objs)
 			for i := 0; i < v.Len(); i++ {
